@@ -190,6 +190,9 @@ class SymExec:
                 d = dotted(n)
                 if d is not None and d in env:
                     return env[d]
+                if isinstance(n.value, ast.Name) and isinstance(env.get(n.value.id), ast.Name) and \
+                   env[n.value.id].id.startswith('_obj') and '%s.%s' % (env[n.value.id].id, n.attr) in env:
+                    return env['%s.%s' % (env[n.value.id].id, n.attr)]      # a field of a record held in a name
                 if isinstance(n.value, ast.Name) and n.value.id in ('self', 'cls') and n.value.id not in env and \
                    n.attr in self.class_consts:
                     return self.class_consts[n.attr]
@@ -367,6 +370,9 @@ class SymExec:
             bind.setdefault(p_.arg, d)
         if any(p_ not in bind for p_ in params):
             return None
+        for k_, v_ in env.items():
+            if k_.startswith('_obj') and '.' in k_:
+                bind.setdefault(k_, v_)     # fields of the records made so far (a record may be an argument)
         sub = SymExec(self.ctx, g, self.depth - 1, self.expand, self.bind_loops, self.no_expand,
                       self.max_paths, self.objects, self.effects, self.volatile, self.props, self.private_only)
         sub._ntok = self._ntok
@@ -748,6 +754,10 @@ class SymExec:
                 tok = ast.Name(id='_obj%d' % self._ntok[0], ctx=ast.Load())
                 self._ntok[0] += 1
                 p.events.append(('create', tok.id, new, st, tuple(p.loops) + inside))
+                if not inside:
+                    # a record (NamedTuple / dataclass without __init__): its fields are what it was built from
+                    for fld_, val_ in record_fields(classes[new.func.id], new).items():
+                        p.env['%s.%s' % (tok.id, fld_)] = val_
                 return tok
             return new
         visited = []
@@ -833,6 +843,7 @@ class SymExec:
                 continue
             if isinstance(st, ast.Assign):
                 val = q.ret if q.ret is not None else ast.Constant(value=None)
+                val = self._tokenize(val, p2, st)       # a record / object the helper hands back is one object
                 for t in st.targets:
                     self._assign(t, val, p2, st)
             out.append(p2)
@@ -2005,7 +2016,10 @@ def class_constants(ctx, cls):
         if isinstance(st, ast.Assign) and len(st.targets) == 1 and isinstance(st.targets[0], ast.Name):
             counts[st.targets[0].id] = counts.get(st.targets[0].id, 0) + 1
             if (isinstance(st.value, ast.Tuple) and literal(st.value)) or \
-               (st.targets[0].id.startswith('_') and not isinstance(st.value, ast.Constant) and constexpr(st.value)):
+               (isinstance(st.value, ast.Constant) and isinstance(st.value.value, str)) or \
+               (not isinstance(st.value, ast.Constant) and constexpr(st.value) and
+                (st.targets[0].id.startswith('_') or any(isinstance(x_, ast.Constant) and isinstance(x_.value, str)
+                                                          for x_ in ast.walk(st.value)))):
                 out[st.targets[0].id] = st.value
     out = {k: v for k, v in out.items() if counts.get(k) == 1}
     if out:
@@ -2097,6 +2111,36 @@ def module_constants(module):
             out[nm] = r
     _MODULE_CONSTS[key] = out
     return out
+
+
+def record_fields(cls, call):
+    """{field: argument} of the creation `call` of a record class (NamedTuple base, or a dataclass without an
+    __init__ of its own); {} for any other class or a call that is not understood"""
+    node = cls.node
+    is_nt = any((b or '').split('.')[-1] == 'NamedTuple' for b in cls.base_names)
+    is_dc = any((dotted(d.func if isinstance(d, ast.Call) else d) or '').split('.')[-1] == 'dataclass'
+                for d in node.decorator_list)
+    if not (is_nt or is_dc) or '__init__' in cls.methods or '__new__' in cls.methods or \
+       (is_dc and '__post_init__' in cls.methods):
+        return {}
+    fields, defaults = [], {}
+    for st in node.body:
+        if isinstance(st, ast.AnnAssign) and isinstance(st.target, ast.Name) and \
+           'ClassVar' not in ast.dump(st.annotation):
+            fields.append(st.target.id)
+            if st.value is not None:
+                defaults[st.target.id] = st.value
+    if any(isinstance(a, ast.Starred) for a in call.args) or any(k.arg is None for k in call.keywords) or \
+       len(call.args) > len(fields):
+        return {}
+    out = dict(defaults)
+    for f_, a in zip(fields, call.args):
+        out[f_] = a
+    for k in call.keywords:
+        if k.arg not in fields:
+            return {}
+        out[k.arg] = k.value
+    return out if set(out) == set(fields) else {}
 
 
 def _walk_unflagged(root, flag):
